@@ -123,6 +123,14 @@ func setupUniverse(timeT types.Type) {
 	generic1("lenof", func(tp *types.TypeParam) types.Type { return it })
 	generic1("every", func(tp *types.TypeParam) types.Type { return tp })
 	generic1("lastreadof", func(tp *types.TypeParam) types.Type { return tp })
+	// provenance of a slice returned by the TLS exporter model: the label, and the context's length and bytes
+	generic1("exportlabel", func(tp *types.TypeParam) types.Type { return types.Typ[types.String] })
+	generic1("exportctxlen", func(tp *types.TypeParam) types.Type { return it })
+	{
+		tp := types.NewTypeParam(types.NewTypeName(token.NoPos, nil, "T", nil), anyT)
+		sig := types.NewSignatureType(nil, nil, []*types.TypeParam{tp}, types.NewTuple(v("x", tp), v("i", it)), types.NewTuple(v("", it)), false)
+		types.Universe.Insert(types.NewFunc(token.NoPos, nil, "exportctxbyte", sig))
+	}
 	{
 		// hastype(x, y): the dynamic type of the interface value x is the (static) type of y
 		ta := types.NewTypeParam(types.NewTypeName(token.NoPos, nil, "A", nil), anyT)
